@@ -118,7 +118,12 @@ pub fn run(nodes: &[Node], data: &RV, partials: &[(String, PartialDef)]) -> (Res
             _ => vec![],
         },
     };
-    let r = it.exec(&tree, &mut scope).map(|_| ());
+    let r = match it.exec(&tree, &mut scope) {
+        Ok(Flow::Normal) => Ok(()),
+        // an interrupt escaping the whole template is outside every statement
+        Ok(_) => Err(Stop::Unsupported("interrupt outside any loop".into())),
+        Err(e) => Err(e),
+    };
     let out = std::mem::take(&mut it.out);
     (r.map(|_| out), it.stats)
 }
